@@ -169,6 +169,7 @@ class Grammar(object):
         self.root = None
         self.whitespace_calls = []      # (call node, method) -- calls that change whitespace handling
         self.opaque_statements = []
+        self.helpers = []               # qualified names of helper functions evaluated abstractly
         self._self = fi.params[0] if (fi.cls is not None and not fi.is_static and fi.params) else None
         self._extract()
         self._nullable = None
@@ -177,42 +178,75 @@ class Grammar(object):
 
     # ------------------------------------------------------------------ statements
     def _extract(self):
-        fn = self.fi.node
-        for s in fn.body:
-            if isinstance(s, ast.Expr) and isinstance(s.value, ast.Constant):
-                continue
-            if isinstance(s, ast.Pass):
-                continue
-            if isinstance(s, ast.Return):
-                if self.root is not None:
-                    raise AnalysisError('grammar builder %s has more than one return' % self.fi.qualname)
-                if s.value is None:
-                    raise AnalysisError('grammar builder %s returns nothing' % self.fi.qualname)
-                self.root = self._term(self._eval(s.value), s.value)
-                self.root_stmt = s
-                continue
-            if self.root is not None:
-                raise AnalysisError('statements after the return of %s' % self.fi.qualname)
-            if isinstance(s, ast.Assign):
-                if len(s.targets) != 1 or not isinstance(s.targets[0], ast.Name):
-                    raise AnalysisError('unsupported assignment target in grammar builder: `%s`' % short(s))
-                v = self._eval(s.value)
-                if isinstance(v, Term):
-                    v.labels.append(s.targets[0].id)
-                self.env[s.targets[0].id] = v
-                continue
-            if isinstance(s, ast.AugAssign):
-                if isinstance(s.op, ast.LShift) and isinstance(s.target, ast.Name):
-                    self._bind_forward(self.env.get(s.target.id), self._eval(s.value), s)
-                    continue
-                raise AnalysisError('unsupported augmented assignment in grammar builder: `%s`' % short(s))
-            if isinstance(s, ast.Expr):
-                self._eval_stmt_expr(s.value)
-                continue
-            raise AnalysisError('unsupported statement in grammar builder %s (line %d): `%s` -- only straight-line '
-                                'code is evaluated' % (self.fi.qualname, s.lineno, short(s, 60)))
-        if self.root is None:
+        v = self._run(self.fi, None, top=True)
+        if v is None:
             raise AnalysisError('grammar builder %s has no return' % self.fi.qualname)
+        self.root = self._term(v, self.root_stmt.value)
+
+    def _run(self, fi, bound, top=False, depth=0):
+        """Evaluate the straight-line body of fi (a grammar builder or one of its helpers) with `bound` parameters;
+        returns the value of its return expression (a term, a string, or a tuple of those)."""
+        if depth > 4:
+            raise AnalysisError('grammar helper calls nested too deeply at %s' % fi.qualname)
+        saved = (self.fi, self.module, self.env, self._self)
+        if not top:
+            self.fi, self.module = fi, fi.module
+            self.env = dict(bound)
+            self._self = fi.params[0] if (fi.cls is not None and not fi.is_static and fi.params) else None
+            if self._self is not None:
+                self.env.pop(self._self, None)
+        self._depth = depth
+        result = None
+        returned = False
+        try:
+            for s in fi.node.body:
+                if isinstance(s, ast.Expr) and isinstance(s.value, ast.Constant):
+                    continue
+                if isinstance(s, ast.Pass):
+                    continue
+                if returned:
+                    raise AnalysisError('statements after the return of %s' % fi.qualname)
+                if isinstance(s, ast.Return):
+                    if s.value is None:
+                        raise AnalysisError('grammar builder %s returns nothing' % fi.qualname)
+                    result = self._eval(s.value)
+                    returned = True
+                    if top:
+                        self.root_stmt = s
+                    continue
+                if isinstance(s, ast.Assign):
+                    v = self._eval(s.value)
+                    for t in s.targets:
+                        self._bind(t, v, s)
+                    continue
+                if isinstance(s, ast.AugAssign):
+                    if isinstance(s.op, ast.LShift) and isinstance(s.target, ast.Name):
+                        self._bind_forward(self.env.get(s.target.id), self._eval(s.value), s)
+                        continue
+                    raise AnalysisError('unsupported augmented assignment in grammar builder: `%s`' % short(s))
+                if isinstance(s, ast.Expr):
+                    self._eval_stmt_expr(s.value)
+                    continue
+                raise AnalysisError('unsupported statement in grammar builder %s (line %d): `%s` -- only straight-line '
+                                    'code is evaluated' % (fi.qualname, s.lineno, short(s, 60)))
+        finally:
+            if not top:
+                self.fi, self.module, self.env, self._self = saved
+            self._depth = depth - 1 if depth else 0
+        return result
+
+    def _bind(self, target, v, stmt):
+        if isinstance(target, ast.Name):
+            if isinstance(v, Term):
+                v.labels.append(target.id)
+            self.env[target.id] = v
+            return
+        if isinstance(target, (ast.Tuple, ast.List)) and isinstance(v, tuple) and len(v) == len(target.elts) \
+                and not any(isinstance(t, ast.Starred) for t in target.elts):
+            for t, x in zip(target.elts, v):
+                self._bind(t, x, stmt)
+            return
+        raise AnalysisError('unsupported assignment target in grammar builder: `%s`' % short(stmt))
 
     def _mentions_terms(self, node):
         for n in ast.walk(node):
@@ -292,6 +326,8 @@ class Grammar(object):
             return Term('not', [self._term(self._eval(e.operand), e.operand)], src=e)
         if isinstance(e, ast.Call):
             return self._call(e)
+        if isinstance(e, (ast.Tuple, ast.List)) and not any(isinstance(x, ast.Starred) for x in e.elts):
+            return tuple(self._eval(x) for x in e.elts)
         raise AnalysisError('unsupported expression in grammar builder: `%s`' % short(e))
 
     def _nary(self, kind, l, r, node):
@@ -340,17 +376,30 @@ class Grammar(object):
             if nm not in CTOR_ALIASES:
                 raise AnalysisError('unsupported pyparsing construct `%s` in `%s`' % (nm, short(e)))
             return self._ctor(CTOR_ALIASES[nm], e)
-        # ---- self.group_if_multiple('name')
+        # ---- self.group_if_multiple('name') / helpers of the builder (evaluated abstractly with the arguments bound)
+        target = None
         if isinstance(f, ast.Attribute) and isinstance(f.value, ast.Name) and f.value.id == self._self \
                 and self._self not in self.env:
-            target = self.idx.lookup(self.fi.cls, f.attr)
+            target = self.idx.lookup(self.fi.cls, f.attr) if self.fi.cls is not None else None
             if target is None:
                 raise AnalysisError('`%s` does not resolve' % short(e))
-            if len(e.args) == 1 and not e.keywords:
-                arg = self._eval(e.args[0])
-                if isinstance(arg, str):
-                    return Action('group', arg, e, target)
-            raise AnalysisError('unsupported action factory call `%s`' % short(e))
+        elif not local and isinstance(f, (ast.Name, ast.Attribute)) and d:
+            kind, obj = self.idx.resolve_dotted(d)
+            if kind == 'func':
+                target = obj
+        if target is not None:
+            factory = True
+            try:
+                group_action_threshold(target)
+            except AnalysisError:
+                factory = False
+            if factory:
+                if len(e.args) == 1 and not e.keywords:
+                    arg = self._eval(e.args[0])
+                    if isinstance(arg, str):
+                        return Action('group', arg, e, target)
+                raise AnalysisError('unsupported action factory call `%s`' % short(e))
+            return self._helper(target, e)
         # ---- methods on terms
         if isinstance(f, ast.Attribute):
             recv = self._eval(f.value)
@@ -387,6 +436,39 @@ class Grammar(object):
         if isinstance(callee, Term):
             return self._named(callee, e)
         raise AnalysisError('unsupported call in grammar builder: `%s`' % short(e))
+
+    def _helper(self, target, e):
+        """A call of another function of the package from the builder: its straight-line body is evaluated with the
+        arguments bound to the parameters (same object identities, so actions attached inside are kept)."""
+        if any(isinstance(a, ast.Starred) for a in e.args) or any(k.arg is None for k in e.keywords):
+            raise AnalysisError('starred arguments in helper call `%s`' % short(e))
+        params = list(target.params)
+        if target.cls is not None and not target.is_static and params:
+            params = params[1:]
+        a = target.node.args
+        if a.vararg or a.kwarg or a.kwonlyargs:
+            raise AnalysisError('helper %s has a signature that is not supported' % target.qualname)
+        if len(e.args) > len(params):
+            raise AnalysisError('too many arguments in helper call `%s`' % short(e))
+        bound = {}
+        for p_, arg in zip(params, e.args):
+            bound[p_] = self._eval(arg)
+        for k in e.keywords:
+            if k.arg not in params or k.arg in bound:
+                raise AnalysisError('unexpected keyword %s in helper call `%s`' % (k.arg, short(e)))
+            bound[k.arg] = self._eval(k.value)
+        defaults = dict(zip(params[len(params) - len(a.defaults):], a.defaults)) if a.defaults else {}
+        for p_ in params:
+            if p_ not in bound:
+                if p_ in defaults and isinstance(defaults[p_], ast.Constant):
+                    bound[p_] = defaults[p_].value if isinstance(defaults[p_].value, str) else Const(defaults[p_].value)
+                else:
+                    raise AnalysisError('missing argument %s in helper call `%s`' % (p_, short(e)))
+        self.helpers.append(target.qualname)
+        v = self._run(target, bound, depth=getattr(self, '_depth', 0) + 1)
+        if v is None:
+            raise AnalysisError('helper %s returns nothing' % target.qualname)
+        return v
 
     def _named(self, term, e):
         if len(e.args) != 1 or e.keywords:
